@@ -46,6 +46,7 @@ type streamSpec struct {
 }
 
 type scenario struct {
+	SameID  int          `json:"sameid"` // all streams use one stream id: a restarted sender (sequence numbers start again)
 	Mode    string       `json:"mode"`
 	Streams []streamSpec `json:"streams"`
 	Sched   [][]int      `json:"sched"`
@@ -152,6 +153,9 @@ func run(w *vt.Writer, sc *scenario, scn int) {
 		for si, st := range sc.Streams {
 			s := si + 1
 			streamID := uint32(0x1000*s + 7)
+			if sc.SameID == 1 {
+				streamID = 0x1007
+			}
 			epochs[si] = int(streamID & 0xfffff)
 			enc := dataplane.VerifNewEncoder(uint8(s), streamID, uint16(st.MTU))
 			var stream []byte // the valid packets, concatenated
@@ -265,9 +269,29 @@ func run(w *vt.Writer, sc *scenario, scn int) {
 			if s < 1 || s > nstreams || k < 1 || k > len(frames[s-1]) {
 				continue // the schedule names a frame the sender did not produce (judged on the sender side)
 			}
-			w.Emit(vt.M{"ev": "deliver", "s": s, "k": k})
+			raw := frames[s-1][k-1].raw
+			tamper := 0
+			if len(d) >= 4 && d[2] != 0 {
+				// adversarial frame: a header field is rewritten / the frame is cut (not something the sender or
+				// the network of the fault model does)
+				tamper = d[2]
+				raw = append([]byte(nil), raw...)
+				switch d[2] {
+				case 1:
+					binary.BigEndian.PutUint16(raw[2:4], uint16(d[3]))
+				case 2:
+					binary.BigEndian.PutUint64(raw[8:16], uint64(int(binary.BigEndian.Uint64(raw[8:16]))+d[3]))
+				case 3:
+					binary.BigEndian.PutUint32(raw[4:8], uint32(d[3])&0xfffff)
+				case 4:
+					if n := 16 + d[3]; n < len(raw) {
+						raw = raw[:n]
+					}
+				}
+			}
+			w.Emit(vt.M{"ev": "deliver", "s": s, "k": k, "tamper": tamper})
 			snk.pkts = snk.pkts[:0]
-			wk.ProcessFrame(frames[s-1][k-1].raw)
+			wk.ProcessFrame(raw)
 			for _, p := range snk.pkts {
 				id := byHash[sha256.Sum256(p)]
 				w.Emit(vt.M{"ev": "emit", "s": id.s, "id": id.id, "len": len(p)})
